@@ -1033,16 +1033,15 @@ func checkDrop(p *Prog, fn *ssa.Function, name ssa.Value, frame *ssa.Parameter, 
 
 func init() {
 	register(&Rule{ID: "R103", Name: "SETFUNC-TABLE", Floor: 20,
-		Text: "in eval.Context.SetFunc every function signature accepted by the type switch is registered with the argument count of that signature (one parameter -> ArgCountOne, two -> ArgCountTwo) and the function type of its first parameter (int, float64, bool, *string -> FunctionTypeInt/Float/Bool/String): the pair handed to setFunc is resolved per case through the phis; setFunc stores the function under its name into singleArgs exactly when the count is ArgCountOne and into doubleArgs otherwise. Eval looks functions up by (operand type, arity, name): a function filed under the wrong pair is `not found`, or is applied to operands of another type",
+		Text: "eval.Context.SetFunc is evaluated (E5, helpers inlined) once per function signature asserted in it, in the world `the dynamic type of fn is that signature`: the function is stored under its name into singleArgs when the signature has one parameter and into doubleArgs when it has two, of the entry of ctx.functions indexed by the function type of the first parameter (int, float64, bool, *string -> FunctionTypeInt/Float/Bool/String); in the world where no signature matches nothing is stored. Eval looks functions up by (operand type, arity, name): a function filed under the wrong pair is `not found`, or is applied to operands of another type",
 		Run:  runR103})
 }
 
 func runR103(c *Ctx) {
 	p := c.P
 	fn := p.Func("config/eval", "Context.SetFunc")
-	setter := p.Func("config/eval", "Context.setFunc")
-	if fn == nil || setter == nil {
-		c.undecided("config/eval.SetFunc", "-", "SetFunc / setFunc not found")
+	if fn == nil || len(fn.Params) != 3 {
+		c.undecided("config/eval.SetFunc", "-", "SetFunc not found")
 		return
 	}
 	tpkg := p.PkgByID[rel("types")]
@@ -1054,10 +1053,9 @@ func runR103(c *Ctx) {
 		if !ok {
 			return 0, false
 		}
-		v, ok := constantInt64(cst)
-		return v, ok
+		return constantInt64(cst)
 	}
-	var typConst = map[string]int64{}
+	typConst := map[string]int64{}
 	for k, n := range map[string]string{"int": "FunctionTypeInt", "float64": "FunctionTypeFloat", "bool": "FunctionTypeBool", "*string": "FunctionTypeString"} {
 		if tpkg == nil {
 			break
@@ -1072,148 +1070,146 @@ func runR103(c *Ctx) {
 		c.undecided("config/eval.SetFunc|constants", p.pos(fn.Pos()), "the FunctionType / ArgCount constants do not resolve")
 		return
 	}
-	// the call of setFunc and its (typ, ac) arguments
-	var call *ssa.Call
-	eachInstr(fn, func(in ssa.Instruction) {
-		if cl, ok := in.(*ssa.Call); ok && cl.Call.StaticCallee() == setter {
-			call = cl
+	_ = acTwo
+	// every signature asserted on the function argument in SetFunc or its helpers
+	var sigs []*types.Signature
+	seenSig := map[string]bool{}
+	var collect func(f *ssa.Function, d int)
+	collect = func(f *ssa.Function, d int) {
+		if d > 2 {
+			return
 		}
-	})
-	if call == nil || len(call.Call.Args) < 3 {
-		c.undecided("config/eval.SetFunc|setFunc call", p.pos(fn.Pos()), "SetFunc does not call setFunc")
+		eachInstr(f, func(in ssa.Instruction) {
+			switch t := in.(type) {
+			case *ssa.TypeAssert:
+				if sg, ok := t.AssertedType.(*types.Signature); ok && t.CommaOk {
+					k := types.TypeString(sg, shortQual)
+					if !seenSig[k] {
+						seenSig[k] = true
+						sigs = append(sigs, sg)
+					}
+				}
+			case *ssa.Call:
+				if callee := t.Call.StaticCallee(); callee != nil && callee.Pkg == fn.Pkg && callee != f {
+					collect(callee, d+1)
+				}
+			}
+		})
+	}
+	collect(fn, 0)
+	if len(sigs) == 0 {
+		c.undecided("config/eval.SetFunc|cases", p.pos(fn.Pos()), "no function signature is accepted")
 		return
 	}
-	typArg, acArg := call.Call.Args[1], call.Call.Args[2]
-	// value of v when control arrives from block `from` (follow phis backwards along single-entry chains)
-	var valueFrom func(v ssa.Value, from *ssa.BasicBlock, d int) (int64, bool)
-	valueFrom = func(v ssa.Value, from *ssa.BasicBlock, d int) (int64, bool) {
-		if k, ok := constInt(v); ok {
-			return k, true
-		}
-		phi, ok := v.(*ssa.Phi)
-		if !ok || d > 6 {
-			return 0, false
-		}
-		for i, pb := range phi.Block().Preds {
-			if pb == from || blockReachesOnlyVia(from, pb, phi.Block()) {
-				return valueFrom(phi.Edges[i], from, d+1)
-			}
-		}
-		return 0, false
-	}
-	n := 0
-	eachInstr(fn, func(in ssa.Instruction) {
-		ta, ok := in.(*ssa.TypeAssert)
-		if !ok || !ta.CommaOk {
-			return
-		}
-		sig, ok := ta.AssertedType.(*types.Signature)
-		if !ok || sig.Params().Len() == 0 {
-			return
-		}
-		n++
-		key := "config/eval.SetFunc|case " + types.TypeString(sig, shortQual)
-		// the ok-true successor
-		var body *ssa.BasicBlock
-		for _, r := range *ta.Referrers() {
-			if ex, ok := r.(*ssa.Extract); ok && ex.Index == 1 {
-				for _, r2 := range *ex.Referrers() {
-					if iff, ok := r2.(*ssa.If); ok {
-						body = iff.Block().Succs[0]
+	eval := func(world *types.Signature) (field string, typ int64, stored bool, why string) {
+		pe := &pathExec{fn: fn, maxStep: 2000}
+		atom := func(x ssa.Value) (bool, bool) {
+			switch t := x.(type) {
+			case *ssa.Extract:
+				if ta, ok := t.Tuple.(*ssa.TypeAssert); ok && ta.CommaOk && t.Index == 1 {
+					return world != nil && types.Identical(ta.AssertedType, world), true
+				}
+			case *ssa.BinOp:
+				if isErrorType(t.X.Type()) {
+					if cst, ok := t.Y.(*ssa.Const); ok && cst.IsNil() {
+						return t.Op == token.EQL, true // the name is legal
+					}
+				}
+				x1, ok1 := pe.intOf(t.X, 0)
+				y1, ok2 := pe.intOf(t.Y, 0)
+				if ok1 && ok2 {
+					switch t.Op {
+					case token.EQL:
+						return x1 == y1, true
+					case token.NEQ:
+						return x1 != y1, true
 					}
 				}
 			}
+			return false, false
 		}
-		if body == nil {
-			c.undecided(key, p.instrPos(ta), "the case body was not found")
-			return
-		}
-		// follow jumps to the block that feeds the phis
-		feeder := body
-		for len(feeder.Succs) == 1 && feeder.Succs[0] != call.Block() && len(feeder.Instrs) == 1 {
-			feeder = feeder.Succs[0]
-		}
-		gotTyp, okT := valueFrom(typArg, feeder, 0)
-		gotAc, okA := valueFrom(acArg, feeder, 0)
-		if !okT || !okA {
-			c.undecided(key, p.instrPos(ta), "the (type, arity) pair of this case does not resolve to constants")
-			return
-		}
-		wantAc := acOne
-		if sig.Params().Len() == 2 {
-			wantAc = acTwo
-		}
-		wantTyp, okW := typConst[types.TypeString(sig.Params().At(0).Type(), shortQual)]
-		switch {
-		case !okW:
-			c.bad(key, p.instrPos(ta), "a signature whose first parameter is not int, float64, bool or *string is accepted")
-		case gotAc != wantAc:
-			c.bad(key, p.instrPos(ta), fmt.Sprintf("a function of %d parameter(s) is filed under argument count %d", sig.Params().Len(), gotAc))
-		case gotTyp != wantTyp:
-			c.bad(key, p.instrPos(ta), fmt.Sprintf("a function over %s is filed under function type %d, not %d", sig.Params().At(0).Type(), gotTyp, wantTyp))
-		default:
-			c.ok(key, p.instrPos(ta), "filed under the arity and operand type of its signature")
-		}
-	})
-	if n == 0 {
-		c.undecided("config/eval.SetFunc|cases", p.pos(fn.Pos()), "no function signature is accepted")
-	}
-	// setFunc
-	for _, world := range []bool{true, false} {
-		key := fmt.Sprintf("config/eval.setFunc|world ac==ArgCountOne is %v", world)
-		pe := &pathExec{fn: setter}
-		pe.oracle = func(pe *pathExec, cond ssa.Value) (bool, bool) {
-			return pe.evalBool(cond, func(x ssa.Value) (bool, bool) {
-				b, ok := x.(*ssa.BinOp)
-				if !ok || len(setter.Params) < 3 || pe.resolve(b.X) != ssa.Value(setter.Params[2]) {
-					return false, false
-				}
-				k, isK := constInt(b.Y)
-				if !isK {
-					return false, false
-				}
-				isOne := world
-				switch {
-				case b.Op == token.EQL && k == acOne:
-					return isOne, true
-				case b.Op == token.NEQ && k == acOne:
-					return !isOne, true
-				case b.Op == token.EQL && k == acTwo:
-					return !isOne, true
-				case b.Op == token.NEQ && k == acTwo:
-					return isOne, true
-				}
-				return false, false
-			})
-		}
-		field := ""
+		pe.oracle = func(pe *pathExec, cond ssa.Value) (bool, bool) { return pe.evalBool(cond, atom) }
+		pe.inline = func(callee *ssa.Function) bool { return callee.Pkg == fn.Pkg }
+		typ = -1
 		pe.onInstr = func(pe *pathExec, in ssa.Instruction) {
-			if mu, ok := in.(*ssa.MapUpdate); ok {
-				if pe.resolve(mu.Key) == ssa.Value(setter.Params[3]) && pe.resolve(mu.Value) == ssa.Value(setter.Params[4]) {
-					field = fieldNameOfLoad(mu.Map)
-					if field == "" {
-						if f, ok := mu.Map.(*ssa.Field); ok {
-							field = f.X.Type().Underlying().(*types.Struct).Field(f.Field).Name()
-						}
+			mu, ok := in.(*ssa.MapUpdate)
+			if !ok || pe.resolve(mu.Value) != ssa.Value(fn.Params[2]) && pe.resolve(mu.Value) != pe.resolve(fn.Params[2]) {
+				return
+			}
+			stored = true
+			m := pe.resolve(mu.Map)
+			// the map is field singleArgs / doubleArgs of functions[typ]
+			var holder ssa.Value
+			switch t := m.(type) {
+			case *ssa.Field:
+				field = t.X.Type().Underlying().(*types.Struct).Field(t.Field).Name()
+				holder = t.X
+			case *ssa.UnOp:
+				if fa, ok := t.X.(*ssa.FieldAddr); ok {
+					field = fieldNameAt(fa)
+					holder = fa.X
+				}
+			}
+			for d := 0; d < 6 && holder != nil; d++ {
+				holder = pe.resolve(holder)
+				switch t := holder.(type) {
+				case *ssa.Lookup:
+					if k, ok := pe.intOf(t.Index, 0); ok {
+						typ = k
 					}
+					holder = nil
+				case *ssa.UnOp:
+					holder = t.X
+				case *ssa.Alloc:
+					holder = singleDef(t)
+				default:
+					holder = nil
 				}
 			}
 		}
-		end, why := pe.run()
+		end, w := pe.run()
 		if _, ok := end.(*ssa.Return); !ok {
-			c.undecided(key, p.pos(setter.Pos()), "cannot evaluate: "+why)
-			continue
+			why = w
 		}
-		want := "doubleArgs"
-		if world {
-			want = "singleArgs"
+		return
+	}
+	for _, sg := range sigs {
+		key := "config/eval.SetFunc|case " + types.TypeString(sg, shortQual)
+		field, typ, stored, why := eval(sg)
+		wantField := "doubleArgs"
+		if sg.Params().Len() == 1 {
+			wantField = "singleArgs"
 		}
-		if field == want {
-			c.ok(key, p.pos(setter.Pos()), "stores fn under name into "+field)
-		} else {
-			c.bad(key, p.pos(setter.Pos()), fmt.Sprintf("the function is stored into %q (nothing if empty), not into %s", field, want))
+		wantTyp, okW := typConst[types.TypeString(sg.Params().At(0).Type(), shortQual)]
+		switch {
+		case why != "":
+			c.undecided(key, p.pos(fn.Pos()), "cannot evaluate: "+why)
+		case !okW:
+			c.bad(key, p.pos(fn.Pos()), "a signature whose first parameter is not int, float64, bool or *string is accepted")
+		case !stored:
+			c.bad(key, p.pos(fn.Pos()), "a function of this signature is accepted but stored nowhere: Eval will not find it")
+		case field != wantField:
+			c.bad(key, p.pos(fn.Pos()), fmt.Sprintf("a function of %d parameter(s) is stored into %s, not %s", sg.Params().Len(), field, wantField))
+		case typ != wantTyp:
+			c.bad(key, p.pos(fn.Pos()), fmt.Sprintf("a function over %s is filed under function type %d, not %d", sg.Params().At(0).Type(), typ, wantTyp))
+		default:
+			c.ok(key, p.pos(fn.Pos()), "stored into "+field+" of the operand type of its signature")
 		}
 	}
+	// no signature matches: nothing is stored
+	{
+		key := "config/eval.SetFunc|unsupported signature"
+		_, _, stored, why := eval(nil)
+		switch {
+		case why != "":
+			c.undecided(key, p.pos(fn.Pos()), "cannot evaluate: "+why)
+		case stored:
+			c.bad(key, p.pos(fn.Pos()), "a function of an unsupported signature is stored in the context")
+		default:
+			c.ok(key, p.pos(fn.Pos()), "rejected, nothing stored")
+		}
+	}
+	_ = acOne
 }
 
 func constantInt64(c *types.Const) (int64, bool) {
